@@ -109,3 +109,20 @@ Theorem C09_multilinear_trim_is_subkey :
     mp_nv ck = snv /\ mp_g ck = g /\ mp_h ck = h /\ (snv <= nv)%nat.
 Proof. exact @trim_tables. Qed.
 Print Assumptions C09_multilinear_trim_is_subkey.
+
+(* Sonic trim: plain powers, hiding powers, generators, and for every enforced bound d the shifted window starting at
+   beta^(D-d) (d+1 elements), its hiding window, and the G2 shift element whose product with beta^(D-d) is h *)
+From PC Require Import Schemes.Sonic Proofs.MarlinComplete Proofs.SonicKeys.
+Theorem C09_sonic_trim_keys :
+  forall (FO : FieldOps) (FL : FieldLaws FO) D beta g gam h up s sh bounds ck vk,
+    setup D true beta g gam h = Ok up -> strim up s sh bounds = Ok (ck, vk) -> beta <> 0 ->
+    sck_g ck = gpowers g 1 beta (s + 1) /\ sck_gamma ck = gpowers gam 1 beta (sh + 2) /\
+    vk_g (svk_vk vk) = g * 1 /\ vk_gamma_g (svk_vk vk) = gam * 1 /\ vk_h (svk_vk vk) = h /\ vk_beta_h (svk_vk vk) = h * beta /\
+    sck_max ck = D /\ sck_bounds ck = option_map sort_dedup bounds /\
+    (forall d, nat_mem d (sbounds ck) = true ->
+       (d <= D)%nat /\
+       (exists pw c k, s_shifted_powers ck d = Ok pw /\ pw_g pw = gpowers g c beta (d + 1) /\
+                       pw_gamma_g pw = gpowers gam (1 * fpow beta (D - d)) beta k /\ c = fpow beta (D - d) /\ (k <= sh + 2)%nat) /\
+       (exists sp, shift_power vk (Some d) = Ok sp /\ sp * fpow beta (D - d) = h)).
+Proof. exact @strim_keys. Qed.
+Print Assumptions C09_sonic_trim_keys.
